@@ -17,6 +17,7 @@ REGISTRY = {
     'C04': ('contracts.propsets', 'C04'),
     'C05': ('contracts.propsets', 'C05'),
     'C07': ('contracts.propsets', 'C07'),
+    'C08': ('contracts.bake', 'C08'),
     'C10': ('contracts.propsets', 'C10'),
     'C11': ('contracts.propsets', 'C11'),
     'C12': ('contracts.propsets', 'C12'),
